@@ -6,7 +6,6 @@
 #include "pgm/pgm_index_variants.hpp"
 #include <fstream>
 #include <memory>
-#include <omp.h>
 #include <sstream>
 #include <unistd.h>
 
@@ -121,7 +120,7 @@ CaseResult run_mapped(const RunCtx &ctx, TapeReader &t, unsigned size_hint) {
     if (!ctx.execute) return res;
 
     FdJanitor janitor;
-    omp_set_num_threads(meta.threads);
+    vf_set_threads(meta.threads);
     const std::string fa = ctx.workdir + "/a.pgm", fb = ctx.workdir + "/b.pgm", fraw = ctx.workdir + "/raw.bin";
     std::remove(fa.c_str());
     std::remove(fb.c_str());
